@@ -2,7 +2,7 @@
     Model: Model/Blocks.v — the token game of block-structured programs (sequence, parallel,
     exclusive, inclusive with default, do-while loop, task with conditional outgoing flows, embedded
     sub-process), variables written by the answers steering the conditions. *)
-From BV Require Import Model.Blocks Proofs.BlocksProofs Proofs.TokenGameProofs.
+From BV Require Import Model.Blocks Model.Cohort Proofs.BlocksProofs Proofs.TokenGameProofs.
 From Coq Require Import Permutation.
 Open Scope nat_scope.
 
@@ -34,6 +34,21 @@ Print Assumptions C01_only_answers_move_tokens.
 Theorem C01_subprocess_transparent : forall b e ops, behaviour (flatten b) e ops = behaviour b e ops.
 Proof. exact inline_equiv. Qed.
 Print Assumptions C01_subprocess_transparent.
+
+(* OPEN FINDING C01-gateway-nested-in-inclusive, as a theorem about the engine's firing rule
+   (Model/Cohort.v: an inclusive gateway fires when every live token tagged like the first arrived one
+   has arrived): for the witness program the token game prescribes tasks 1, 2, 3 after the outer fork,
+   but the inner fork may not fire — its cohort contains the sibling token — neither at once nor after
+   task 3 is answered; the sibling then waits at the outer join: a deadlock.  The harness replays the
+   witness on the engine on every run (KNOWN-FINDING line). *)
+Theorem C01_conformance_refuted_for_gateways_nested_in_inclusive :
+  let b := BIncl 0 1 (BIncl 0 1 (BTask 1) (BTask 2) BSkip) (BTask 3) BSkip in
+  let e := [true; true; false; false] in
+  pending (start e b) = [1; 2; 3] /\
+  Cohort.may_fire Cohort.after_outer_fork 2 0 = false /\ Cohort.may_fire Cohort.after_T3 2 0 = false /\
+  Cohort.may_fire Cohort.after_T3 4 1 = false.
+Proof. exact nested_inclusive_refuted. Qed.
+Print Assumptions C01_conformance_refuted_for_gateways_nested_in_inclusive.
 
 Example C01_nonvacuous :
   let b := BSeq (BPar (BTask 1) (BSub (BIncl 0 1 (BTask 2) (BTask 3) (BTask 4)))) (BCond 5 2 (BTask 6) (BTask 7)) in
